@@ -382,6 +382,28 @@ func genEnvCase(r *gen.Rand, cfgName string, mode string) *EnvCase {
 			}
 		}
 	}
+	// a system key revoked long ago, then a write that has to create an intermediate key (first write of a new partition, or the
+	// partition's intermediate key is revoked as well): the new key must not be created under the revoked system key
+	if mode != "malformed" && mode != "norevoke" && len(sess) > 0 && r.Chance(1, 3) {
+		h := gen.Pick(r, sess)
+		if id, created, ok := g.latestKey("_SK_", h.part); ok {
+			g.do(EnvOp{K: "revoke", ID: gen.H(id), Created: created})
+			g.do(EnvOp{K: "advance", D: 2*g.pol.RCI + 1 + int64(r.Intn(3))*g.pol.RCI})
+			if r.Bool() {
+				if s := g.session(h.f, "p9"); s >= 0 {
+					sess = append(sess, sh{s, h.f, "p9"})
+					g.nextPl++
+					g.do(EnvOp{K: "encrypt", S: s, Payload: g.nextPl})
+				}
+			} else {
+				if iid, icreated, ok := g.latestKey("_IK_", h.part); ok {
+					g.do(EnvOp{K: "revoke", ID: gen.H(iid), Created: icreated})
+				}
+				g.nextPl++
+				g.do(EnvOp{K: "encrypt", S: h.s, Payload: g.nextPl})
+			}
+		}
+	}
 	// every genuine record must still decrypt, in a live session of its partition and (refDecrypt) a fresh process
 	if mode != "malformed" {
 		for j, ri := range x.recInfo {
